@@ -512,6 +512,33 @@ def gen_b(shard, tier):
                 if reason:
                     case['skip'] = reason
                 yield case
+    # an argument BEFORE the error that cannot be converted to its
+    # parameter's type (a word where a number is expected) does not take the
+    # error's place: an operand that IS an error value is the result
+    for i, reason in positions:
+        if reason is not None or name == 'CHOOSE':
+            # (CHOOSE: without a valid index no value is chosen at all)
+            continue
+        earlier = [j for j in range(i) if ft.kind_at(row, j) in ('n', 'd')]
+        if not earlier:
+            continue
+        j = earlier[0]
+        for code in ('#N/A', '#DIV/0!'):
+            for rname, how in (('call', None), ('lit', 'lit'),
+                               ('cell', 'cell')):
+                args = list(base)
+                args[i] = E(code)
+                args[j] = fcall.native('abc')
+                yield {
+                    'g': 'b', 'fn': name, 'form': 'call', 'args': args,
+                    'route': 'call' if rname == 'call' else 'formula',
+                    'hows': None if rname == 'call' else [
+                        how if k == i else 'lit' for k in range(len(args))],
+                    'judge': 'propagate',
+                    'tags': ['grp:b', 'fn:' + name, 'spell:pos=%d' % i,
+                             'before:unconvertible-text', 'route:' + rname],
+                    'key': 'C07/b/%s/pos=%d/err=%s/after-text-at-%d/route=%s'
+                           % (name, i, code, j, rname)}
     if deep(tier):
         live = [i for i, reason in positions if reason is None]
         for i, j in itertools.combinations(live, 2):
